@@ -231,7 +231,7 @@ theorem posts_flat_pair_textarea (T : Tables) (b : Bind) (st st6 : TState) (hp :
     (hT1 : T.autoTag sName sTextarea = true) (hT2 : T.autoTag sValue sTextarea = true)
     (h : transform T sTextarea (some b) st = .ok st6) :
     st6.contents = some (.markup (Flatland.C11.markupEscape T.textChain b.u)) ∧
-    ∀ text, submittedD sTextarea st6.attrs text = some (b.flatName, text) := by
+    ∀ text, submittedD sTextarea st6.attrs text = some (b.flatName, dropLeadingLF text) := by
   obtain ⟨s1, s2, s3, s4, s5, h1, h2, h3, h4, h5, h6⟩ := transform_steps h
   rw [transformName_on T _ b st hp.nameOn hp.noNameOpt hname hp.noName hT1] at h1
   simp only [Except.ok.injEq] at h1
@@ -779,5 +779,141 @@ example : generateRawDomid sInput [(sType, .text "checkbox".toList), (sValue, .t
     .ok (some "a_qr".toList) := by decide
 /-- a literal that sanitises to nothing: both sides fall back to the bare name -/
 example : generateRawDomid sLabel [(sValue, .text " %".toList)] (some kfBind) = .ok (some "a".toList) := by decide
+
+end Flatland.C12.Proofs
+
+namespace Flatland.C12.Proofs
+open Flatland.Markup Flatland.C12 Flatland.C19.Proofs
+
+/-! ### options and the Boolean checkbox without a literal -/
+
+/-- SELECTED IFF MATCHES — an `<option value=lit>` bound to an element (any kind; `m` is what
+    `current in bind` / `current == bind.u` answers: `lit = u` for scalars, membership for Arrays):
+    after the transforms `selected` is present exactly when the literal matches, the `value` is
+    untouched, and inside a `<select>` named `n` the browser posts `(n, lit)` exactly then.
+    (Options WITHOUT `value=` are KF-C12-b/e and outside this theorem.) -/
+theorem selected_iff (T : Tables) (b : Bind) (st st6 : TState) (lit selectName text : Str) (m : Bool) (hp : Plain T st)
+    (hnd : (Dict.keys st.attrs).Nodup)
+    (hlit : Dict.get? st.attrs sValue = some (.text lit))
+    (hm : b.matches T (some (.text lit)) = .ok m)
+    (hsel : selectName ≠ [])
+    (hT1 : T.autoTag sName sOption = false) (hT2 : T.autoTag sValue sOption = true)
+    (h : transform T sOption (some b) st = .ok st6) :
+    Dict.get? st6.attrs sValue = some (.text lit) ∧
+    Dict.get? st6.attrs sSelected = (if m then some (.text sSelected) else none) ∧
+    submittedOption selectName (strAttrs st6.attrs) text = (if m then some (selectName, lit) else none) := by
+  obtain ⟨s1, s2, s3, s4, s5, h1, h2, h3, h4, h5, h6⟩ := transform_steps h
+  rw [transformName_skip T sOption (some b) st hp.nameOn hp.noNameOpt hT1] at h1
+  simp only [Except.ok.injEq] at h1
+  subst h1
+  rw [transformValue_option T b st (.text lit) m hp.valueOn hp.noValueOpt hlit hm hT2] at h2
+  simp only [Except.ok.injEq] at h2
+  subst h2
+  have hl : sOption ≠ sLabel := by decide
+  have f2 := (later_frame sValue (by decide) hl h3 h4 h5 h6).1
+  have f3 := (later_frame sSelected (by decide) hl h3 h4 h5 h6).1
+  simp only at f2 f3
+  have m2 : sValue ≠ sSelected := by decide
+  have e2 : Dict.get? st6.attrs sValue = some (.text lit) := by
+    rw [f2]; unfold toggleAttr; split
+    · rw [Dict.get?_set_other _ _ _ _ m2, hlit]
+    · rw [Dict.get?_erase_other _ _ _ m2, hlit]
+  have e3 : Dict.get? st6.attrs sSelected = (if m = true then some (.text sSelected) else none) := by
+    rw [f3]; unfold toggleAttr
+    cases m with
+    | true => simp [Dict.get?_set_self]
+    | false => simp only [Bool.false_eq_true, if_false]; exact Dict.get?_erase_self _ _ hnd
+  refine ⟨e2, e3, ?_⟩
+  have hn6 := transform_nodup hnd h
+  have hne : selectName.isEmpty = false := by simpa using hsel
+  unfold submittedOption
+  simp only [attr?_strAttrs _ hn6, e2, e3, hne, Bool.false_eq_true, if_false, Option.bind_some, str?_text, Option.getD_some]
+  cases m with
+  | true => simp only [if_true, Option.bind_some, str?_text, Option.isSome_some]
+  | false => simp only [Bool.false_eq_true, if_false, Option.bind_none, Option.isSome_none]
+
+/-- CHECKBOX WITHOUT A LITERAL, BOUND TO A BOOLEAN (the ordinary use): the missing `value=` is
+    filled with `Boolean.true`, `checked` is present exactly when the element's text is that
+    value, and the browser posts `(flattened name, Boolean.true)` exactly then -/
+theorem checked_iff_boolean (T : Tables) (b : Bind) (st st6 : TState) (ty : Val) (tru text : Str) (hp : Plain T st)
+    (hnd : (Dict.keys st.attrs).Nodup)
+    (hty : Dict.get? st.attrs sType = some ty) (hck : ty.eqStr "checkbox".toList = true)
+    (hno : Dict.get? st.attrs sValue = none) (hkind : b.kind = .boolean tru)
+    (hname : b.flatName ≠ [])
+    (hT1 : T.autoTag sName sInput = true) (hT2 : T.autoTag sValue sInput = true)
+    (h : transform T sInput (some b) st = .ok st6) :
+    Dict.get? st6.attrs sValue = some (.text tru) ∧
+    Dict.get? st6.attrs sChecked = (if tru = b.u then some (.text sChecked) else none) ∧
+    Spec.PostsIffMatches (submittedD sInput st6.attrs text) b tru (tru == b.u) := by
+  obtain ⟨s1, s2, s3, s4, s5, h1, h2, h3, h4, h5, h6⟩ := transform_steps h
+  rw [transformName_on T sInput b st hp.nameOn hp.noNameOpt hname hp.noName hT1] at h1
+  simp only [Except.ok.injEq] at h1
+  subst h1
+  have n1 : "auto_value".toList ≠ sName := by decide
+  have n2 : sType ≠ sName := by decide
+  have n3 : sValue ≠ sName := by decide
+  have hv := transformValue_boolcheck T b ⟨Dict.set st.attrs sName (.text b.flatName), st.contents, st.ctx⟩ ty tru
+      hp.valueOn (by simp only; rw [Dict.get?_set_other _ _ _ _ n1]; exact hp.noValueOpt)
+      (by simp only; rw [Dict.get?_set_other _ _ _ _ n2]; exact hty) hck
+      (by simp only; rw [Dict.get?_set_other _ _ _ _ n3]; exact hno) hkind hT2
+  rw [hv] at h2
+  simp only [Except.ok.injEq] at h2
+  subst h2
+  have hl : sInput ≠ sLabel := by decide
+  have f1 := (later_frame sName (by decide) hl h3 h4 h5 h6).1
+  have f2 := (later_frame sValue (by decide) hl h3 h4 h5 h6).1
+  have f3 := (later_frame sChecked (by decide) hl h3 h4 h5 h6).1
+  have f4 := (later_frame sType (by decide) hl h3 h4 h5 h6).1
+  simp only at f1 f2 f3 f4
+  have m1 : sName ≠ sChecked := by decide
+  have m2 : sValue ≠ sChecked := by decide
+  have m3 : sType ≠ sChecked := by decide
+  have m4 : sName ≠ sValue := by decide
+  have m5 : sType ≠ sValue := by decide
+  have hnd2 : (Dict.keys (Dict.set (Dict.set st.attrs sName (Val.text b.flatName)) sValue (Val.text tru))).Nodup :=
+    Dict.nodup_set _ _ _ (Dict.nodup_set _ _ _ hnd)
+  have hget : ∀ k, k ≠ sChecked → Dict.get? (toggleAttr (Dict.set (Dict.set st.attrs sName (Val.text b.flatName)) sValue
+      (Val.text tru)) sChecked (tru == b.u)) k =
+      Dict.get? (Dict.set (Dict.set st.attrs sName (Val.text b.flatName)) sValue (Val.text tru)) k := by
+    intro k hk
+    unfold toggleAttr
+    split
+    · exact Dict.get?_set_other _ _ _ _ hk
+    · exact Dict.get?_erase_other _ _ _ hk
+  have e1 : Dict.get? st6.attrs sName = some (.text b.flatName) := by
+    rw [f1, hget _ m1, Dict.get?_set_other _ _ _ _ m4, Dict.get?_set_self]
+  have e2 : Dict.get? st6.attrs sValue = some (.text tru) := by
+    rw [f2, hget _ m2, Dict.get?_set_self]
+  have e4 : Dict.get? st6.attrs sType = some ty := by
+    rw [f4, hget _ m3, Dict.get?_set_other _ _ _ _ m5, Dict.get?_set_other _ _ _ _ n2, hty]
+  have e3 : Dict.get? st6.attrs sChecked = (if tru = b.u then some (.text sChecked) else none) := by
+    rw [f3]
+    unfold toggleAttr
+    by_cases hlu : tru = b.u
+    · simp [hlu, Dict.get?_set_self]
+    · have : (tru == b.u) = false := by simpa using hlu
+      simp only [this, Bool.false_eq_true, if_false, hlu]
+      exact Dict.get?_erase_self _ _ hnd2
+  refine ⟨e2, e3, ?_⟩
+  have hn6 := transform_nodup hnd h
+  have hne : b.flatName.isEmpty = false := by simpa using hname
+  have hs : ty.str? = some "checkbox".toList := by
+    unfold Val.eqStr at hck
+    cases hs : ty.str? with
+    | none => rw [hs] at hck; simp at hck
+    | some s => rw [hs] at hck; simp only [beq_iff_eq] at hck; rw [hck]
+  have hlow : asciiLower "checkbox".toList = "checkbox".toList := by decide
+  have hdec : (decide ("checkbox".toList = "checkbox".toList) || decide ("checkbox".toList = "radio".toList)) = true := by
+    decide
+  unfold Spec.PostsIffMatches submittedD submitted
+  simp only [attr?_strAttrs _ hn6, e1, e2, e3, e4, Option.bind_some, str?_text, hne, Bool.false_eq_true, if_false,
+    hs, Option.getD_some, hlow, hdec, if_true]
+  by_cases hlu : tru = b.u
+  · subst hlu
+    simp only [if_true, Option.bind_some, str?_text, Option.isSome_some, beq_self_eq_true, decide_true, Bool.true_or,
+      ite_self]
+  · have : (tru == b.u) = false := by simpa using hlu
+    simp only [hlu, if_false, Option.bind_none, Option.isSome_none, Bool.false_eq_true, this, decide_true, Bool.true_or,
+      if_true]
 
 end Flatland.C12.Proofs
